@@ -676,16 +676,16 @@ def kf_classify(case, code, kind, detail, impl_lines, spec_lines, shift_lines):
 PROP_KINDS = {
     # property -> (form filter, kinds of differences that belong to it)
     "C01": (lambda c: not isa_cmp.is_control(c) and not isa_cmp.is_stack(c) and not isa_cmp.is_os(c),
-            ("regs", "rsp", "xmm", "mem", "rip", "accepts-unsupported")),
+            ("regs", "rsp", "xmm", "mem", "rip", "accepts-unsupported", "spurious-error")),
     "C02": (lambda c: True, ("flags",)),
-    "C03": (lambda c: isa_cmp.is_control(c), ("rip", "fault-mismatch")),
-    "C04": (lambda c: isa_cmp.is_stack(c), ("regs", "rsp", "mem", "rip", "fault-mismatch", "mem-after-fault", "xmm", "flags")),
-    "C05": (lambda c: True, ("regs", "rsp", "mem", "fault-mismatch", "xmm", "panic")),
-    "C06": (lambda c: not isa_cmp.is_os(c), ("fault-mismatch", "mem-after-fault", "panic")),
+    "C03": (lambda c: isa_cmp.is_control(c), ("rip", "fault-mismatch", "spurious-error")),
+    "C04": (lambda c: isa_cmp.is_stack(c), ("regs", "rsp", "mem", "rip", "fault-mismatch", "spurious-error", "mem-after-fault", "xmm", "flags")),
+    "C05": (lambda c: True, ("regs", "rsp", "mem", "fault-mismatch", "spurious-error", "xmm", "panic")),
+    "C06": (lambda c: not isa_cmp.is_os(c), ("fault-mismatch", "spurious-error", "mem-after-fault", "panic")),
     "C19": (lambda c: True, ("panic",)),
     # guest loads / stores of every width against the byte store (area edges, misaligned, straddling)
     "C08": (lambda c: not isa_cmp.is_control(c) and not isa_cmp.is_stack(c) and not isa_cmp.is_os(c),
-            ("mem", "fault-mismatch", "mem-after-fault", "regs", "xmm")),
+            ("mem", "fault-mismatch", "spurious-error", "mem-after-fault", "regs", "xmm")),
 }
 
 
